@@ -273,6 +273,7 @@ class Engine:
         self._loops = {}
         self._joinkill = {}
         self.visited = {}         # root -> set of fn qnames
+        self.visited_blocks = {}  # root -> set of (fn qname, block)
         self.states_at = {}       # (root, id(ins)) -> set of (locks, alive)
         self.record_states_for = set()
         self.cls = None
@@ -404,8 +405,10 @@ class Engine:
         inset = {entry: {state}}
         work = [entry]
         exits = set()
+        vb = self.visited_blocks.setdefault(self.root, set())
         while work:
             bn = work.pop()
+            vb.add((fn.qname, bn))
             blk = fn.blocks[bn]
             outs = set()
             for st in list(inset[bn]):
